@@ -289,3 +289,32 @@ func WideGrids() []*Grid {
 		{HasHeader: true, Header: mk(10, "h"), HeaderLast: true, Rows: []GridRow{{Cells: mk(10, "a")}, {Cells: mk(10, "b")}}},
 	}
 }
+
+// LongTexts: a dense sweep of text lengths around typical buffer thresholds (64, 128, 256, 512, 1024, 4096
+// bytes), each length plain, with the hostile character at the start, in the middle, doubled in the middle,
+// at the end, and made of hostile characters only; plus multi-byte text and cells of many lines.
+func LongTexts(hostile string) []string {
+	var out []string
+	var lens []int
+	for _, r := range [][2]int{{60, 70}, {124, 134}, {250, 262}, {508, 516}, {1020, 1030}, {4094, 4098}} {
+		for n := r[0]; n <= r[1]; n++ {
+			lens = append(lens, n)
+		}
+	}
+	for _, n := range lens {
+		base := strings.Repeat("x", n)
+		out = append(out, base, hostile+base[1:], base[:n/2]+hostile+base[n/2+1:], base[:n/2]+hostile+hostile+base[n/2+2:], base[:n-1]+hostile)
+		if n <= 140 {
+			out = append(out, strings.Repeat(hostile, n))
+		}
+	}
+	for _, n := range []int{33, 64, 129, 600} {
+		out = append(out, strings.Repeat("é", n), strings.Repeat("ｗ", n/2)+hostile)
+	}
+	lines := make([]string, 40)
+	for i := range lines {
+		lines[i] = fmt.Sprintf("line %d", i+1)
+	}
+	out = append(out, strings.Join(lines, "\n"), strings.Join(lines[:12], "\n")+"\n")
+	return out
+}
